@@ -249,6 +249,14 @@ func init() {
 		}
 		return "ok " + fmtPTN(p)
 	}
+	// ptnchunk <k> <hex>: the same bytes through a reader that hands over at most k bytes per Read (a pipe, a socket)
+	opTable["ptnchunk"] = func(s *Session, a []string) string {
+		p, err := ptn.ParsePTN(&chunkReader{b: hexDec(a[1]), n: atoi(a[0])})
+		if err != nil {
+			return "err"
+		}
+		return "ok " + fmtPTN(p)
+	}
 	// ptnfile: the same bytes through ptn.ParseFile (a file on disk), the entry point the command-line tools use
 	opTable["ptnfile"] = func(s *Session, a []string) string {
 		f, err := os.CreateTemp("", "verif-ptn-*.ptn")
